@@ -117,7 +117,8 @@ def sh(cmd, cwd=None, env=None, timeout=3600):
 
 
 def lane(k, n, stride):
-    base = '/tmp/mut/lane%d' % k
+    d = os.environ.get('MUT_DIR', str(k))           # scratch directory of this worker (default: the lane number)
+    base = '/tmp/mut/lane' + d
     repo, verif = base + '/repo', base + '/verif'
     os.makedirs(base, exist_ok=True)
     if not os.path.exists(repo):
@@ -130,10 +131,10 @@ def lane(k, n, stride):
     muts = select(sites(repo), stride)
     mine = [m for i, m in enumerate(muts) if i % n == k]
     env = dict(os.environ, HYEONG_REPO=repo, CARGO_NET_OFFLINE='true')
-    res = open('/tmp/mut/results-%d.jsonl' % k, 'a')
+    res = open('/tmp/mut/results-%s.jsonl' % d, 'a')
     done = set()
-    if os.path.exists('/tmp/mut/results-%d.jsonl' % k):
-        for l in open('/tmp/mut/results-%d.jsonl' % k):
+    if os.path.exists('/tmp/mut/results-%s.jsonl' % d):
+        for l in open('/tmp/mut/results-%s.jsonl' % d):
             try:
                 r = json.loads(l)
                 done.add((r['file'], r['line'], r['op'], r['new']))
